@@ -1123,7 +1123,57 @@ def r13_every_module_entered_is_on_the_history(ctx):
     ctx.floor('C09.R13', 'recursive calls of index_local_types', n, 3)
 
 
+REVIEWED_IMPORT_RESOLUTION_PANIC_SITES = {
+    # (function, kind): (count, why it cannot fire) - confirmed by reading the tree with the repair of finding 30 applied
+    ('RawModulePath::make_absolute', 'assert:Overflow'): (1, '`n_module_segments - n_super` after the `n_super >= n_module_segments` early return (the repair of finding 20; C09.R10 discharges the subtraction itself)'),
+    ('RawModulePath::make_absolute', 'expect'): (1, 'a RawModulePath is parsed with a non-empty punctuated parser and `from!` refuses empty paths'),
+    ('RawModulePath::make_absolute', 'index:Vec'): (1, '`self.0[0]` after `first()` succeeded'),
+    ('resolve_imports', 'expect'): (1, '`path.0.first()` of a parsed, non-empty module path'),
+    ('resolve_imports', 'index:Vec'): (1, '`path.0[0] = ..` of the same non-empty path'),
+    ('resolve_imports', 'unwrap'): (1, 'metadata of a package id that `sources_for_all` has just read out of the package graph'),
+    ('sources_for_all', 'unwrap'): (1, 'metadata of the package the blueprint was registered in, an id resolved against the package graph - except for a registering '
+                                       'package that is itself called core / alloc / std (krate_name.rs short-circuits those names): reported by the round-8 C09 agent, '
+                                       'not reproduced here, listed in DESIGN section 5'),
+}
+
+
+def r15_import_resolution_does_not_panic(ctx):
+    ctx.rule('C09.R15', 'P3 audit with a reviewed table (the form of C09.R7 / R14): `user_components::imports` turns what the user wrote in `from![..]` into packages and '
+             'module paths - names the user chose (a toolchain crate, a renamed dependency, too many `super`s). Every panic site there is one of the reviewed sites; '
+             'an `expect` on a lookup keyed by a user-chosen name is a crash instead of a diagnostic.')
+    _panic_site_audit(ctx, 'C09.R15', 'pavexc::compiler::analyses::user_components::imports::', REVIEWED_IMPORT_RESOLUTION_PANIC_SITES, 'import-resolution', 4, 1)
+
+
+def r16_config_keys_are_validated_by_the_parser_that_unwraps_them(ctx):
+    ctx.rule('C09.R16', 'P1/P9 validator/consumer agreement: `ConfigKey::ident()` turns the key into a field name with `syn::parse_str(..).unwrap()` ("infallible, the key is '
+             'a valid identifier"); `ConfigKey::new` is the validator that makes it so. Every construction of a `ConfigKey` in `new` is dominated by a call to the '
+             'same parser (`syn::parse_str`), so that whatever `new` accepts `ident` can parse - a key that is a Rust keyword (`type`, `match`) passes a '
+             'character-class check and panics in `ident`.')
+    CK = PX + 'component::config_type::ConfigKey'
+    nb = [b for b in ctx.fb.bodies_of_item('pavexc', CK + '::new') if not b.is_promoted]
+    ib = [b for b in ctx.fb.bodies_of_item('pavexc', CK + '::ident') if not b.is_promoted]
+    if not (ctx.need('C09.R16', 'ConfigKey::new', nb) and ctx.need('C09.R16', 'ConfigKey::ident', ib)):
+        return
+    unwraps_parse = any((callee(t) or '').startswith('syn::parse_str') for b in ib for _, t in b.calls())
+    ctx.ob('C09.R16', 'ident-unwraps-the-parser', unwraps_parse, ib[0].loc(), 'ConfigKey::ident goes through syn::parse_str: %s' % unwraps_parse, nontrivial=False)
+    if not unwraps_parse:
+        return                      # ident() no longer unwraps a parse: nothing for the validator to agree with
+    n = 0
+    for b in nb:
+        parses = [bb for bb, t in b.calls() if (callee(t) or '').startswith('syn::parse_str')]
+        for bb, j, st in b.all_assigns():
+            rv = st['rv']
+            if rv['k'] == 'agg' and rv.get('ak') == 'adt' and strip_generics(rv['adt']) == CK:
+                n += 1
+                ok = any(b.dominates(p_, bb) for p_ in parses)
+                ctx.ob('C09.R16', 'validated-by-the-same-parser|ConfigKey::new', ok, b.loc(bb, st),
+                       'the key is %s by syn::parse_str before a ConfigKey is built' % ('parsed' if ok else 'NOT parsed'))
+    ctx.floor('C09.R16', 'constructions of ConfigKey in ConfigKey::new', n, 1)
+
+
 def check(ctx):
+    r16_config_keys_are_validated_by_the_parser_that_unwraps_them(ctx)
+    r15_import_resolution_does_not_panic(ctx)
     r14_cycle_detection_does_not_panic(ctx)
     r4_nothing_assumes_success_before_the_gate(ctx)
     r1_no_silent_failure(ctx)
